@@ -13,6 +13,18 @@
 (* no effect on its receiver, so the harness also requires the real receiver  *)
 (* to be unmodified after the call and after the result is changed in place.  *)
 (* Which internal child unrooted() dissolves is left open (nondeterministic). *)
+(*                                                                            *)
+(* NAMES are part of the state: a node is identified by the name of the edge  *)
+(* above it (Trees.tla), so a tree of the model has pairwise different names  *)
+(* by construction (NamesUnique) and an action that creates a node gives it a *)
+(* name that is not in use (CreatedNameIsFresh; WHICH name is not modelled).  *)
+(* The harness requires the same of every real result, and requires the       *)
+(* name-carrying round trips (json, rich dict, newick with node names) to     *)
+(* return every name on the same node.  Names of the model are opaque; the    *)
+(* harness instantiates them in several name classes, among them: internal    *)
+(* names left to the newick parser (Make's second argument is the newick      *)
+(* text without internal labels: edge.0, edge.1, ...) and user-given internal *)
+(* names that look like generated ones (edge.0, edge.0.1, ...).               *)
 EXTENDS Trees, Emit
 
 CONSTANTS MinTips, MaxTips,    \* initial trees have MinTips..MaxTips tips
@@ -86,6 +98,20 @@ NwkNode(p, lens, i) ==
     IN IF i = 1 THEN body \o ";"
        ELSE body \o NameOf(p, i) \o ":" \o ToString(lens[i] \div 2)
 
+(* the same text without labels on internal nodes: the parser names them itself *)
+RECURSIVE NwkNodeU(_, _, _)
+RECURSIVE NwkKidsU(_, _, _, _)
+NwkKidsU(p, lens, ks, acc) ==
+    IF ks = {} THEN acc
+    ELSE LET c == CHOOSE x \in ks : \A y \in ks : x <= y
+         IN NwkKidsU(p, lens, ks \ {c},
+                     (IF acc = "" THEN "" ELSE acc \o ",") \o NwkNodeU(p, lens, c))
+NwkNodeU(p, lens, i) ==
+    LET ks == {j \in 2..(Len(p) + 1) : p[j - 1] = i}
+        body == IF ks = {} THEN "" ELSE "(" \o NwkKidsU(p, lens, ks, "") \o ")"
+    IN IF i = 1 THEN body \o ";"
+       ELSE body \o (IF ks = {} THEN NameOf(p, i) ELSE "") \o ":" \o ToString(lens[i] \div 2)
+
 (* ---- binding ----------------------------------------------------------------- *)
 Log(act, args, cls, exp) ==
     Emit([from |-> tree, act |-> act, args |-> args, to |-> tree',
@@ -98,7 +124,7 @@ Init == tree = EMPTY
 MakeT(p, lens) == /\ tree = EMPTY
                   /\ tree' = TreeOfShape(p, lens)
 Make(p, lens) == /\ MakeT(p, lens)
-                 /\ Log("Make", <<NwkNode(p, lens, 1)>>, "n" \o ToString(NTips(p)), NoExp)
+                 /\ Log("Make", <<NwkNode(p, lens, 1), NwkNodeU(p, lens, 1)>>, "n" \o ToString(NTips(p)), NoExp)
 
 Live == tree # EMPTY
 
@@ -208,6 +234,15 @@ DepthBound == TLCGet("level") < MaxLevel
 (* Design-level properties checked by TLC on the model itself.                *)
 
 TreeOK == Live => WellFormed(tree)
+
+(* names are unique: as many names as non-root nodes, none of them the root's *)
+NamesUnique == Live => /\ ROOT \notin Dom(tree)
+                       /\ Cardinality(Dom(tree)) + 1 = Cardinality(Nodes(tree))
+(* a step adds at most one name, and that name was not in use before *)
+CreatedNameIsFresh ==
+    [][Live => LET added == Dom(tree') \ Dom(tree)
+               IN /\ Cardinality(added) <= 1
+                  /\ added # {} => (RootAtMidpointT /\ ~MidOnNode(tree) /\ added = {NEWEDGE})]_vars
 
 (* THE PROPERTY: every transformation keeps the retained tips, the unrooted   *)
 (* topology among them and every tip-to-tip path length.                      *)
